@@ -55,6 +55,10 @@ int main(void)
 		if (memlimit == 0) memlimit = UINT64_MAX;
 		lzma_options_lzma ol; lzma_lzma_preset(&ol, 0); ol.dict_size = flags;
 		lzma_filter f2[2] = {{LZMA_FILTER_LZMA2, &ol}, {LZMA_VLI_UNKNOWN, NULL}};
+		// in a re-initialisation history with its own earlier input the earlier use may have had other flags (checks ignored,
+		// not concatenated ...): nothing of them may survive the re-initialisation
+		const unsigned flags_now = flags;
+		if (mode >= 16 && n2) flags ^= ((seed >> 5) & 1 ? 0x10u : 0) ^ ((seed >> 6) & 1 ? 0x08u : 0) ^ ((seed >> 7) & 1 ? 0x01u : 0);
 		lzma_mt mt = { .flags = flags, .threads = 1 + (unsigned)(seed % 4), .timeout = (seed / 4) % 2 ? 0 : ((seed / 8) % 2 ? 1 : 3), .memlimit_threading = memlimit, .memlimit_stop = memlimit };
 		if (kind == 6) {
 			uint64_t ml = memlimit; size_t ip = 0, op = 0;
@@ -77,6 +81,7 @@ int main(void)
 		case 9: r = lzma_microlzma_decoder(&s, mcomp, muncomp, mexact, mdict); break;
 		default: r = LZMA_PROG_ERROR;
 		}
+		flags = flags_now; mt.flags = flags_now;
 		if (r != LZMA_OK) { printf("%d 0 0 0 -\n", (int)r); fflush(stdout); lzma_end(&s); lzma_index_end(idx7, NULL); continue; }
 		if (mode >= 16 && kind <= 4) {
 			// re-initialisation history: decode part of the same input (small output buffers so that
